@@ -76,6 +76,7 @@ type BuildOpt struct {
 	Options    bool // install the container's OPTIONSFilter
 	Dynamic    bool
 	Switched   bool // configure the other router first, then switch to Router (configuration history)
+	Longhand   bool // declare every route with Method(m).Path(p) instead of the per-method shortcuts (GET(p), HEAD(p), ...)
 	Nest       bool // route functions honour X-Nest: dispatch a nested GET to that path, then look at their own request again
 }
 
@@ -137,7 +138,7 @@ func Build(t rm.Table, o BuildOpt) (b *Built) {
 			ro = o.RouteOrder[si]
 		}
 		for _, ri := range ro {
-			rb := RouteBuilder(ws, s.Routes[ri], lg)
+			rb := routeBuilder(ws, s.Routes[ri], lg, o.Longhand)
 			if o.Nest {
 				nestable(rb, s.Routes[ri].ID, lg, b)
 			}
@@ -152,7 +153,35 @@ func Build(t rm.Table, o BuildOpt) (b *Built) {
 
 // RouteBuilder turns a declaration into a RouteBuilder with a logging function and conditions.
 func RouteBuilder(ws *restful.WebService, r rm.RouteDecl, lg *Log) *restful.RouteBuilder {
-	rb := ws.Method(r.Method).Path(r.Sub)
+	return routeBuilder(ws, r, lg, false)
+}
+
+func routeBuilder(ws *restful.WebService, r rm.RouteDecl, lg *Log, longhand bool) *restful.RouteBuilder {
+	// the per-method shortcuts of WebService are what applications use; other methods go through
+	// Method(..).Path(..)
+	var rb *restful.RouteBuilder
+	method := r.Method
+	if longhand {
+		method = "(longhand) " + method
+	}
+	switch method {
+	case "GET":
+		rb = ws.GET(r.Sub)
+	case "POST":
+		rb = ws.POST(r.Sub)
+	case "PUT":
+		rb = ws.PUT(r.Sub)
+	case "DELETE":
+		rb = ws.DELETE(r.Sub)
+	case "PATCH":
+		rb = ws.PATCH(r.Sub)
+	case "HEAD":
+		rb = ws.HEAD(r.Sub)
+	case "OPTIONS":
+		rb = ws.OPTIONS(r.Sub)
+	default:
+		rb = ws.Method(r.Method).Path(r.Sub)
+	}
 	if len(r.Consumes) > 0 {
 		rb.Consumes(r.Consumes...)
 	}
